@@ -134,6 +134,27 @@ def checkPair (p c : BlockOp) (pi ci : Nat) : List String :=
         (m1 ++ m2).map fun m =>
           s!"op {ci} BLOCKDEP {c.blockdep}: job {f} may run with job {k} from the end of op {pi}: {m}"
 
+def totalJobs (b : BlockOp) : Nat := totalBlocks b * slices b
+
+/-- *Observation, not part of the property*: if the kernel operation in the middle has fewer jobs than the
+    BLOCKDEP of its successor, then under the "at most BLOCKDEP outstanding jobs" reading jobs of the operation
+    *before* it could still be in flight.  Counts the read-after-write overlaps that reading would allow between
+    `c` and the operation two back (`pp`), which `calc_blockdep` never looks at. -/
+def checkSkip (pp mid c : BlockOp) : Nat :=
+  let m := totalJobs mid
+  ((List.range c.blockdep).flatMap fun f =>
+    (List.range (c.blockdep - f - m)).filter fun k =>
+      match jobOutputBox pp k, jobInputBox c f with
+      | some ob, some ib => (overlapMsg "IFM" c.ifm ib pp.ofm ob).isSome
+      | _, _ => false).length
+
+def skipCount (ops : List StreamOp) : Nat :=
+  let ks := ops.filterMap fun so => match so.op with | .block b => some b | .dma _ => none
+  let rec go : List BlockOp → Nat
+    | pp :: mid :: c :: rest => checkSkip pp mid c + go (mid :: c :: rest)
+    | _ => 0
+  go ks
+
 /-- every kernel operation against the kernel operation before it (DMAs in between do not matter) -/
 def checkStream (_isU65 : Bool) (ops : List StreamOp) : List String :=
   let rec go (l : List (StreamOp × Nat)) (prev : Option (BlockOp × Nat)) (acc : List String) : List String :=
